@@ -678,7 +678,7 @@ def generate_cond(rng, feat=None):
     for md in methods:
         tree[rng.randrange(2)].append(["M", {"id": md["id"], "body": []}])
     kind = rng.choice(["T", "T", "M1", "M2", "MW1", "MW2"])
-    if rng.random() < 0.08:
+    if rng.random() < 0.14:
         kind = rng.choice(["M0", "MW0"])  # the method with the condition (or its wrapper) has no caller at all
     if kind == "T":
         tree[0].append(["T", {"id": "t0", "ready": g.inp() if rng.random() < 0.7 else None, "body": ebody}])
